@@ -201,8 +201,8 @@ func (hs *clientHandshakeStateGM) doFullHandshake() error {
 				return errors.New("tls: failed to parse certificate from server: " + err.Error())
 			}
 
-			pubKey, _ := cert.PublicKey.(*ecdsa.PublicKey)
-			if pubKey.Curve != sm2.P256Sm2() {
+			pubKey, ok := cert.PublicKey.(*ecdsa.PublicKey)
+			if !ok || pubKey.Curve != sm2.P256Sm2() {
 				c.sendAlert(alertUnsupportedCertificate)
 				return fmt.Errorf("tls: pubkey type of cert is error, expect sm2.publicKey")
 			}
@@ -294,19 +294,24 @@ func (hs *clientHandshakeStateGM) doFullHandshake() error {
 		ka.encipherCert = c.peerCertificates[1]
 	}
 
+	// Every GM/T 0024 key exchange carries a ServerKeyExchange: its signature is the
+	// server's proof of possession of the signing key and binds the encryption
+	// certificate to this session. It is not optional.
 	skx, ok := msg.(*serverKeyExchangeMsg)
-	if ok {
-		hs.finishedHash.Write(skx.marshal())
-		err = keyAgreement.processServerKeyExchange(c.config, hs.hello, hs.serverHello, c.peerCertificates[0], skx)
-		if err != nil {
-			c.sendAlert(alertUnexpectedMessage)
-			return err
-		}
+	if !ok {
+		c.sendAlert(alertUnexpectedMessage)
+		return unexpectedMessageError(skx, msg)
+	}
+	hs.finishedHash.Write(skx.marshal())
+	err = keyAgreement.processServerKeyExchange(c.config, hs.hello, hs.serverHello, c.peerCertificates[0], skx)
+	if err != nil {
+		c.sendAlert(alertUnexpectedMessage)
+		return err
+	}
 
-		msg, err = c.readHandshake()
-		if err != nil {
-			return err
-		}
+	msg, err = c.readHandshake()
+	if err != nil {
+		return err
 	}
 
 	var chainToSend *Certificate
